@@ -31,5 +31,6 @@ theorem bloom_clear_translated (s : Bloom.St) : bloom_clear s.bits.toList = Flow
 theorem hll_is_empty_translated (s : Hll.St) : hll_is_empty s.regs.toList = Hll.isEmpty s := hll_is_empty_eq s
 theorem qf_is_empty_translated (n : Nat) : qf_is_empty n = (n == 0) := qf_is_empty_eq n
 theorem qf_len_translated (n : Nat) : qf_len n = n := qf_len_eq n
+theorem cms_is_empty_translated (s : Cms.St) : cms_is_empty s.table.toList = Cms.isEmpty s := cms_is_empty_eq s
 
 end Pds.Tie.C19
